@@ -164,6 +164,22 @@ def adcValue [Add K] [Mul K] [Zero K] [One K] [LT K] [DecidableLT K] (floor : K 
   let v := floor (polyGain g (clipSat cap x))
   if v < 0 then 0 else v
 
+/-- one digitisation step, by its name in the regenerated step list `Gen.adcSteps`: the count is a `K` up to the floor and an `Int`
+(DN) after it; a step applied to the wrong kind of value, or an unknown step, is `none` -/
+def adcStep [Add K] [Mul K] [Zero K] [One K] [LT K] [DecidableLT K] (floor : K → Int) (cap : Option K) (g : List K) :
+    String → Sum K Int → Option (Sum K Int)
+  | "saturate", .inl x => some (.inl (clipSat cap x))
+  | "gain", .inl x => some (.inl (polyGain g x))
+  | "floor", .inl x => some (.inr (floor x))
+  | "clamp", .inr v => some (.inr (if v < 0 then 0 else v))
+  | "cast", .inr v => some (.inr v)
+  | _, _ => none
+
+/-- `adc` at one pixel, **run through the steps in the order the source performs them** (`Gen.adcSteps`, regenerated) -/
+def adcFromSteps [Add K] [Mul K] [Zero K] [One K] [LT K] [DecidableLT K] (floor : K → Int) (cap : Option K) (g : List K) (x : K) :
+    Option (Sum K Int) :=
+  (Gen.adcSteps.map (·.1)).foldlM (fun v name => adcStep floor cap g name v) (.inl x)
+
 /-- the four ways `gain` can be given -/
 inductive Gain (K : Type) where
   | scalar (g : K)                         -- ndim 0
